@@ -9,10 +9,5 @@ git -C $wt apply $d/patch.diff || { echo "PATCH DOES NOT APPLY"; exit 2; }
 echo "[tests] $(cd $wt && PYTHONPATH=$wt timeout 1200 /venv/bin/python -m pytest -q -p no:cacheprovider --timeout=900 2>&1 | tail -1)"
 out=$(cd $wt && PYTHONPATH=$wt timeout 900 /venv/bin/python -W ignore $d/demo.py 2>&1); rc=$?
 echo "[patched demo rc=$rc] $(echo "$out" | grep -i fail | head -1 | cut -c1-200)"
-cd /verif
-for p in "$@"; do
-  out=$(VERIF_REPO=$wt ./check $p --tier quick 2>&1); rc=$?
-  echo "[check $p] exit=$rc $(echo "$out" | grep -E '^(VIOLATION|OK )' | head -1 | cut -c1-170)"
-  echo "$out" | grep -E '^  - ' | head -3 | cut -c1-230
-done
+/verif/harness/tools/mut_check.sh $wt "$@"
 git -C $wt checkout -q -- . ; git -C $wt clean -fdq aquacrop
